@@ -43,7 +43,13 @@ fn generate_fvar(static_metadata: &StaticMetadata) -> Option<Fvar> {
             .get(name)
             .unwrap()
             .iter()
-            .find(|&&name_id| allow_reserved || name_id >= min_font_specific_name_id)
+            .find(|&&name_id| {
+                // the only spec-reserved ids an instance may reuse are 2 and 17
+                name_id >= min_font_specific_name_id
+                    || (allow_reserved
+                        && (name_id == NameId::SUBFAMILY_NAME
+                            || name_id == NameId::TYPOGRAPHIC_SUBFAMILY_NAME))
+            })
             .cloned()
             .unwrap()
     };
